@@ -29,7 +29,7 @@ CLAIMED['C08'] = dict(
          'real TCPRequestHandler connections racing poll threads and extra driver tasks at lock operations and at '
          'line events of dispatcher.py/modulebase.py; each connection\'s line stream is judged against the ground-truth '
          'history of the parameter cache (snapshot completeness and currency, last message = cache at quiescence, '
-         'optionally failing application callbacks on the parameters (functions, partial objects, callable instances), optionally a client which stops reading for seconds behind a small receive buffer while updates flow (a send of the node may time out: the connection is then either served or closed), '
+         'values stamped by a lagging device clock, optionally failing application callbacks on the parameters (functions, partial objects, callable instances), optionally a client which stops reading for seconds behind a small receive buffer while updates flow (a send of the node may time out: the connection is then either served or closed), '
          'no cache state skipped while a parameter stays in scope, nothing after the scope-ending reply, no cross-talk, '
          'nothing left in the dispatcher of a connection whose handler has finished; a run which cannot end because '
          'a request is never answered is a violation).',
@@ -90,7 +90,7 @@ CLAIMED['C11'] = dict(
     level='exploration',
     text='Seeded search over 2..4 caller threads x request mixes (equal/distinct keys, unknown actions, unique id per '
          'request) against a scripted SECoP peer (reply order and delay up to beyond the time-out, error replies, '
-         'updates, streamed updates of an active node, unsolicited replies, garbage, half lines, replies written in two '
+         'updates and error updates, streamed updates of an active node, unsolicited replies, garbage, half lines, replies written in two '
          'pieces with a pause, a peer which takes only 12..24 bytes at a time) with peer '
          'close/reset (shutdown() of a reset socket fails with ENOTCONN as on Linux)/black hole, refused reconnects '
          'and user disconnect at arbitrary points, pre-empting the real SecopClient/AsynTcp threads at lock '
@@ -133,7 +133,7 @@ CLAIMED['C16'] = dict(
          'read from the socket before the command left, judged on the byte stream by the event number of the recv), '
          'communicator lock (no overlapping in-flight windows, no foreign command '
          'inside a multicomm), delays honoured (also the one after the last command of a transaction), failures are communication errors within the time-out bound, every call '
-         'returns (a run that cannot end with a call open is a violation), reconnect rate of callers (dated by the '
+         'returns (a run that cannot end with a call open is a violation), a command without reply issued long after the device dropped the idle line fails instead of vanishing, reconnect rate of callers (dated by the '
          'moment the rate limiter was consulted), reconnect callbacks exactly once per reconnect, healing and poll resumption after faults stop.',
     note='Trusted: simulation kernel, simulated TCP, scripted device. Bytes arriving after a command was sent cannot '
          'be told from its reply by any implementation and are exempt. Known finding: is_connected set after a '
@@ -144,7 +144,7 @@ CLAIMED['C17'] = dict(
     level='fault_enumeration',
     text='For every generated module (persistent parameters of all datatypes, auto/explicit saving, with/without write '
          'method, writable or read-only, '
-         'configured values) and operation history (set, assign, save, load, factory reset, restart) the real '
+         'configured values) and operation history (set, assign, save, load, factory reset, restart - in 60 % of the cases inside the process, i.e. with the parameter sections of the configuration kept in memory) the real '
          'PersistentMixin is re-run once for EVERY file-system operation of every step x {error, torn write, crash '
          'before / after / inside} under two write models (unbuffered, buffered until close) - exhaustive per history; '
          'the stored file is corrupted by truncation at every byte, sampled bit flips, type/key changes, per-datatype '
@@ -171,7 +171,7 @@ CLAIMED['C19'] = dict(
          'simulated network first (ports held by another listener for a while or for ever, real bind retries of '
          'TCPServer), and every announced port must be one the node really accepts connections on and answers '
          '*IDN? on - at the moment the datagram leaves, also while discovery requests keep arriving during the shutdown '
-         'of the node and during a restart (broadcasts reach every socket bound to the port; log of when each listening port is open), and after a restart of the node.',
+         'of the node and during a restart; datagrams between the answer budget and the receive size (broadcasts reach every socket bound to the port; log of when each listening port is open), and after a restart of the node.',
     note='Trusted: simulated UDP socket, simulated socketserver base class, constant firmware version. The budgeting clause is a pure function of the '
          'strings; it is checked as a rider of the simulated runs.',
     design='6/C19')
@@ -194,7 +194,7 @@ CLAIMED['C20'] = dict(
 CLAIMED['C14'] = dict(
     level='exploration',
     text='Seeded search over generated state-function programs (next/Retry/Finish/self/non-callable/raise, cleanup '
-         'returning none/chain/non-callable/raising, maxloops 2..10) with a cycling task and a commanding task issuing '
+         'returning none/chain/non-callable (truthy and falsy)/raising, maxloops 2..10) with a cycling task and a commanding task issuing '
          'start(state, cleanup, attributes)/stop between any two steps (state functions yield to the scheduler; line '
          'events of statemachine.py). Trace invariants: cycle never raises and is bounded, init flag exactly on the first '
          'call after each transition, every cleanup at most once, a cleanup sequence neither interrupted nor abandoned, '
@@ -232,7 +232,7 @@ CLAIMED['C10'] = dict(
          'poll of that module; start values, overridden limits/unit/visibility/readonly/group must show in cache and '
          'description and limits must be used by later range checks (wire probes); with 0..3 injected errors (unknown '
          'name, unknown parameter property, wrong type, missing mandatory property, required value missing, inverted '
-         'limits, bad module property, a value longer than the maxchars/maxbytes/maxlen given with it; the unit of the module given in the configuration with units of nested struct/tuple members relative to it; two modules of one class each with its own configuration; an optional parameter of a base class which the class of the module does not '
+         'limits, bad module property, a value longer than the maxchars/maxbytes/maxlen given with it; the unit of the module given in the configuration with units of nested struct/tuple members relative to it; export=True given in the configuration (described and readable under that name); two modules of one class each with its own configuration; an optional parameter of a base class which the class of the module does not '
          'implement) start-up must end with the error report naming every failing module and no '
          'configured value may have reached any driver. In a quarter of the runs the node is restarted on the same '
          'loaded configuration (as Server.run does after Server.restart) and the second generation is judged.',
